@@ -13,7 +13,8 @@ def empty_on_raw(w):
 def decimal_length_only_flat(w):
     rep(w + "/cutplace/fields.py", "        self._length = ranges.Range(length_text)\n\n        self._precision", "        if data_format.format in (data.FORMAT_DELIMITED, data.FORMAT_FIXED):\n            self._length = ranges.Range(length_text)\n\n        self._precision")
 def distinct_no_reset(w):
-    rep(w + "/cutplace/checks.py", "        self._distinct_value_to_count_map = None\n        self.reset()\n        self._eval()\n\n    def reset(self):\n        self._distinct_value_to_count_map = {}\n", "        self._distinct_value_to_count_map = {}\n        self._eval()\n")
+    rep(w + "/cutplace/checks.py", "        self._distinct_value_to_count_map = None\n        self.reset()\n        self._eval()\n", "        self._distinct_value_to_count_map = {}\n        self._eval()\n")
+    rep(w + "/cutplace/checks.py", "    def reset(self):\n        self._distinct_value_to_count_map = {}\n\n", "")
 def distinct_class_level(w):
     rep(w + "/cutplace/checks.py", '    _COUNT_NAME = "count"\n', '    _COUNT_NAME = "count"\n    _distinct_value_to_count_map = {}\n')
     rep(w + "/cutplace/checks.py", "        self._distinct_value_to_count_map = None\n        self.reset()", "        self.reset()")
@@ -54,14 +55,43 @@ def datetime_flags_first(w):
     assert s.count(anchor) == 1
     s = s.replace(anchor, anchor + loop); open(p, "w").write(s)
 def excel_only_missing_is_unreadable(w):
-    rep(w + "/cutplace/rowio.py", "    with open(source_path, \"rb\"):\n        pass\n", "    try:\n        with open(source_path, \"rb\"):\n            pass\n    except FileNotFoundError:\n        raise\n    except OSError as error:\n"
-        "        raise errors.DataFormatError(\"cannot read Excel file: %s\" % error, location)\n")
+    rep(w + "/cutplace/rowio.py", "        with open(source_path, \"rb\"):\n            pass\n", "        try:\n            with open(source_path, \"rb\"):\n                pass\n        except FileNotFoundError:\n            raise\n        except OSError as error:\n"
+        "            raise errors.DataFormatError(\"cannot read Excel file: %s\" % error, location)\n")
+RESET_LOOP = "        for check in self.cid.check_map.values():\n            check.reset()\n        self._has_reset_checks = True\n\n    @property\n    def location(self):\n        \"\"\"\n        The location in the :py:class:`cutplace.rowio.AbstractRowWriter` used"
+NO_LOOP = "        self._has_reset_checks = True\n\n    @property\n    def location(self):\n        \"\"\"\n        The location in the :py:class:`cutplace.rowio.AbstractRowWriter` used"
+def validate_without_reader_limit(w):
+    rep(w + "/cutplace/validio.py", "    with Reader(cid_or_path, data_stream_or_path, validate_until=validate_until) as reader:", "    with Reader(cid_or_path, data_stream_or_path) as reader:")
+    rep(w + "/cutplace/validio.py", "        if validate_until is not None:\n            rows_to_validate = itertools.islice(rows_to_validate, min(validate_until, sys.maxsize))", "        if validate_until is not None:\n            # Only the first rows are read at all, so the reader does not need its own limit.\n            rows_to_validate = itertools.islice(rows_to_validate, min(validate_until, sys.maxsize))")
+def writer_reset_only_delimited(w):
+    rep(w + "/cutplace/validio.py", RESET_LOOP, NO_LOOP)
+    rep(w + "/cutplace/validio.py", "            self._delegated_writer = rowio.DelimitedRowWriter(target, data_format)\n", "            self._delegated_writer = rowio.DelimitedRowWriter(target, data_format)\n            for check in self.cid.check_map.values():\n                check.reset()\n")
+def writer_reset_before_delimited_only(w):
+    rep(w + "/cutplace/validio.py", RESET_LOOP, NO_LOOP)
+    rep(w + "/cutplace/validio.py", "            self._delegated_writer = rowio.DelimitedRowWriter(target, data_format)\n", "            for check in self.cid.check_map.values():\n                check.reset()\n            self._delegated_writer = rowio.DelimitedRowWriter(target, data_format)\n")
+def writer_no_reset(w): rep(w + "/cutplace/validio.py", RESET_LOOP, NO_LOOP)
+def reset_at_close_not_in_writer(w):
+    rep(w + "/cutplace/validio.py", RESET_LOOP, NO_LOOP)
+    rep(w + "/cutplace/validio.py", "                for check in self.cid.check_map.values():\n                    check.cleanup()\n", "                for check in self.cid.check_map.values():\n                    check.cleanup()\n                    check.reset()\n")
+def writer_reset_at_first_data_row(w):
+    rep(w + "/cutplace/validio.py", RESET_LOOP, NO_LOOP)
+    rep(w + "/cutplace/validio.py", "        if self.location.line >= self._header:\n            self.validate_row(actual_row_to_write)", "        if self.location.line >= self._header:\n            if self.location.line == self._header:\n                # First data row: start with pristine checks.\n                for check in self.cid.check_map.values():\n                    check.reset()\n            self.validate_row(actual_row_to_write)")
+def advance_only_nonempty_rows(w):
+    rep(w + "/cutplace/interface.py", "                        )\n                self._location.advance_line()\n        except errors.DataFormatError as error:", "                        )\n                    self._location.advance_line()\n        except errors.DataFormatError as error:")
+def fixed_writelines(w): rep(w + "/cutplace/rowio.py", '            self._target_stream.write("".join(row_to_write))\n', "            self._target_stream.writelines(row_to_write)\n")
+def fixed_write_per_field(w): rep(w + "/cutplace/rowio.py", '            self._target_stream.write("".join(row_to_write))\n', "            for field_value in row_to_write:\n                self._target_stream.write(field_value)\n")
+def pad_stripped(w):
+    rep(w + "/cutplace/validio.py", "            _, fixed_field_length = self._field_names_and_lengths[field_index]\n            # Anything but a string is left for the validation to reject.\n", "            # Pad the same text the field format has validated.\n            field_value = field_value.strip()\n            _, fixed_field_length = self._field_names_and_lengths[field_index]\n            # Anything but a string is left for the validation to reject.\n")
+def exit_closes_only_without_error(w):
+    rep(w + "/cutplace/validio.py", "        try:\n            self.close()\n        except errors.CutplaceError:\n            if exc_type is None:\n                raise\n", "        if exc_type is None:\n            self.close()\n")
 
 PLAN = {"C03-10": chars_on_stripped, "C03-2": chars_on_stripped, "C04-10": chars_on_stripped, "C20-10": chars_on_stripped, "C03-4": empty_on_raw, "C03-7": decimal_length_only_flat,
         "C05-3": distinct_no_reset, "C18-1": distinct_no_reset, "C18-4": distinct_no_reset, "C18-6": distinct_no_reset, "C05-7": distinct_class_level, "C07-10": until_zero_is_none, "C18-3": until_zero_is_none_unguarded,
         "C08-5": distinct_values_set, "C09-8": class_map_cache, "C20-3": class_map_cache, "C20-8": class_map_cache, "C12-6": bool_of_text, "C16-5": xlsx_write_any,
         "C17-11": lambda w: strip_unless_delimited(w, "Only delimited data can preserve surrounding blanks on purpose (by quoting them)."), "C17-4": lambda w: strip_unless_delimited(w, "Only delimited data can carry intentional surrounding blanks."),
-        "C17-8": datetime_flags_first, "C18-7": excel_only_missing_is_unreadable}
+        "C17-8": datetime_flags_first, "C18-7": excel_only_missing_is_unreadable,
+        "C07-11": validate_without_reader_limit, "C08-1": writer_reset_only_delimited, "C08-9": writer_reset_before_delimited_only, "C14-2": writer_no_reset, "C08-4": reset_at_close_not_in_writer, "C08-8": writer_reset_at_first_data_row,
+        "C09-11": advance_only_nonempty_rows, "C09-2": advance_only_nonempty_rows, "C09-5": advance_only_nonempty_rows, "C14-10": fixed_writelines, "C14-6": fixed_writelines, "C14-3": fixed_write_per_field, "C14-9": pad_stripped,
+        "C20-7": exit_closes_only_without_error}
 
 def main(ids):
     head = subprocess.check_output(["git", "-C", "/repo", "rev-parse", "--short", "HEAD"], text=True).strip()
